@@ -2,6 +2,8 @@ package checks
 
 import (
 	"fmt"
+	"go/constant"
+	"os"
 	"go/token"
 	"go/types"
 	"sort"
@@ -35,7 +37,16 @@ type recEdge struct {
 	guard    string
 }
 
-func isASTType(t types.Type) bool { return isASTTypeDepth(t, 0) }
+var astTypeCache = map[types.Type]bool{}
+
+func isASTType(t types.Type) bool {
+	if v, ok := astTypeCache[t]; ok {
+		return v
+	}
+	v := isASTTypeDepth(t, 0)
+	astTypeCache[t] = v
+	return v
+}
 
 func isASTTypeDepth(t types.Type, depth int) bool {
 	if depth > 3 {
@@ -65,6 +76,10 @@ func isASTTypeDepth(t types.Type, depth int) bool {
 		}
 		// carrier structs of the module (functionMeta, Series …): a struct with an AST-typed field
 		if u.Obj().Pkg() != nil && strings.HasPrefix(u.Obj().Pkg().Path(), core.ModPath) {
+			// only plain records (no methods): long-lived state holders such as Interpreter/Linter/Context are not arguments
+			if u.NumMethods() > 0 || types.NewMethodSet(types.NewPointer(u)).Len() > 0 {
+				return false
+			}
 			if st, ok := u.Underlying().(*types.Struct); ok {
 				for i := 0; i < st.NumFields(); i++ {
 					ft := st.Field(i).Type()
@@ -278,6 +293,7 @@ type recAnalysis struct {
 	in       map[*ssa.Function]bool
 	edges    map[*ssa.Function][]*recEdge
 	retClass map[*ssa.Function]string // sub | bounded | fresh : AST values a function returns, relative to its AST parameters
+	allFuncs []*ssa.Function
 }
 
 // computeRetClass: greatest fixpoint from "sub"; a function is demoted when a returned AST value derives from a
@@ -403,7 +419,22 @@ func newRecAnalysis(prog *core.Program, prefixes ...string) *recAnalysis {
 				case *ssa.MakeClosure:
 					// a closure created in fn and called later (possibly elsewhere): edge fn -> closure, same arguments
 					if f2, ok := t.Fn.(*ssa.Function); ok && ra.in[f2] && f2.Synthetic == "" {
-						ra.edges[fn] = append(ra.edges[fn], &recEdge{from: fn, to: f2, class: "same"})
+						// only when the closure escapes: a closure that is just called in place is covered by its call edge
+						escapes := false
+						if t.Referrers() != nil {
+							for _, r := range *t.Referrers() {
+								if ci, ok := r.(ssa.CallInstruction); ok && ci.Common().Value == ssa.Value(t) {
+									continue
+								}
+								if _, ok := r.(*ssa.DebugRef); ok {
+									continue
+								}
+								escapes = true
+							}
+						}
+						if escapes {
+							ra.edges[fn] = append(ra.edges[fn], &recEdge{from: fn, to: f2, class: ra.callbackClass(fn, t)})
+						}
 					}
 				}
 			}
@@ -414,18 +445,141 @@ func newRecAnalysis(prog *core.Program, prefixes ...string) *recAnalysis {
 
 func (ra *recAnalysis) classify(fn *ssa.Function, call ssa.CallInstruction, cal *ssa.Function) string {
 	res := ""
-	nAST := 0
+	nAST, nDesc := 0, 0
 	for _, a := range call.Common().Args {
 		if !isASTType(a.Type()) {
 			continue
 		}
 		nAST++
-		res = worst(res, ra.classOf(fn, a))
+		cl := ra.classOf(fn, a)
+		if cl == "descending" {
+			nDesc++
+		}
+		res = worst(res, cl)
 	}
 	if nAST == 0 {
 		return "re-entry"
 	}
+	// one argument strictly descends and no argument comes from elsewhere: the total size of the arguments decreases
+	if nDesc > 0 && res != "re-entry" {
+		return "descending"
+	}
 	return res
+}
+
+// callbackClass: a closure created in fn and handed to an interface method (node.Lint(func(n){…})): how do the
+// implementations of that method in the module call it? "descending" if every call passes a value reached from the
+// receiver through at least one field/index step.
+func (ra *recAnalysis) callbackClass(fn *ssa.Function, mc *ssa.MakeClosure) string {
+	if mc.Referrers() == nil {
+		return "same"
+	}
+	for _, r := range *mc.Referrers() {
+		call, ok := r.(ssa.CallInstruction)
+		if !ok || !call.Common().IsInvoke() {
+			continue
+		}
+		m := call.Common().Method
+		argIdx := -1
+		for i, a := range call.Common().Args {
+			if a == ssa.Value(mc) {
+				argIdx = i
+			}
+		}
+		if argIdx < 0 {
+			continue
+		}
+		res := ""
+		n := 0
+		impls := 0
+		if ra.allFuncs == nil {
+			ra.allFuncs = ra.prog.ModuleFuncs()
+		}
+		for _, impl := range ra.allFuncs {
+			if impl.Name() != m.Name() || impl.Signature.Recv() == nil || impl.Parent() != nil {
+				continue
+			}
+			if !types.Identical(impl.Signature.Params(), m.Type().(*types.Signature).Params()) {
+				continue
+			}
+			impls++
+			cb := impl.Params[argIdx+1]
+			if cb.Referrers() == nil {
+				continue
+			}
+			for _, r2 := range *cb.Referrers() {
+				c2, ok := r2.(ssa.CallInstruction)
+				if !ok || c2.Common().Value != ssa.Value(cb) {
+					continue
+				}
+				n++
+				for _, a := range c2.Common().Args {
+					cl := (&recAnalysis{}).classOfRecv(impl, a)
+					res = worst(res, cl)
+				}
+			}
+		}
+		if n > 0 && res == "descending" {
+			return "descending"
+		}
+		if n > 0 {
+			return res
+		}
+		if impls > 0 {
+			return "descending" // no implementation in the module ever invokes the callback
+		}
+	}
+	return "same"
+}
+
+// classOfRecv: like classOf, but the receiver of fn counts as the (AST) parameter.
+func (ra *recAnalysis) classOfRecv(fn *ssa.Function, arg ssa.Value) string {
+	steps := 0
+	v := arg
+	for i := 0; i < 12; i++ {
+		switch t := v.(type) {
+		case *ssa.MakeInterface:
+			v = t.X
+		case *ssa.ChangeInterface:
+			v = t.X
+		case *ssa.TypeAssert:
+			v = t.X
+		case *ssa.UnOp:
+			if t.Op != token.MUL {
+				return "re-entry"
+			}
+			switch a := t.X.(type) {
+			case *ssa.FieldAddr:
+				steps++
+				v = a.X
+			case *ssa.IndexAddr:
+				steps++
+				v = a.X
+			default:
+				return "re-entry"
+			}
+		case *ssa.Extract:
+			if nx, ok := t.Tuple.(*ssa.Next); ok {
+				if rg, ok := nx.Iter.(*ssa.Range); ok {
+					steps++
+					v = rg.X
+					continue
+				}
+			}
+			return "re-entry"
+		case *ssa.Parameter:
+			if len(fn.Params) > 0 && t == fn.Params[0] {
+				if steps > 0 {
+					return "descending"
+				}
+				return "same"
+			}
+			return "re-entry"
+		default:
+			return "re-entry"
+		}
+	}
+	return "re-entry"
 }
 
 // sccs: strongly connected components with a cycle (Tarjan).
@@ -498,6 +652,12 @@ func (ra *recAnalysis) guardOf(e *recEdge, comp map[*ssa.Function]bool) string {
 	}
 	fn := e.from
 	b := e.site.Block()
+	if g := constantSelectorGuard(e); g != "" {
+		return g
+	}
+	if g := ascendingParamGuard(e); g != "" {
+		return g
+	}
 	for _, blk := range fn.Blocks {
 		iff, ok := blk.Instrs[len(blk.Instrs)-1].(*ssa.If)
 		if !ok {
@@ -736,8 +896,49 @@ func checkRecursion(c *core.Ctx, rule string, ra *recAnalysis) {
 			}
 			return core.FnName(offending[i].from)+core.FnName(offending[i].to) < core.FnName(offending[j].from)+core.FnName(offending[j].to)
 		})
+		// report only the cycle-closing edges: back edges of a DFS that starts at the functions entered from outside
+		back := map[*recEdge]bool{}
+		{
+			var entries []*ssa.Function
+			for _, f := range ra.funcs {
+				if set[f] {
+					continue
+				}
+				for _, e := range ra.edges[f] {
+					if set[e.to] {
+						entries = append(entries, e.to)
+					}
+				}
+			}
+			sort.Slice(entries, func(i, j int) bool { return entries[i].String() < entries[j].String() })
+			entries = append(entries, comp...)
+			color := map[*ssa.Function]int{}
+			var dfs func(u *ssa.Function)
+			dfs = func(u *ssa.Function) {
+				color[u] = 1
+				es := append([]*recEdge{}, ra.edges[u]...)
+				sort.SliceStable(es, func(i, j int) bool { return es[i].to.String() < es[j].to.String() })
+				for _, e := range es {
+					if !set[e.to] || e.class == "descending" || e.guard != "" {
+						continue
+					}
+					switch color[e.to] {
+					case 1:
+						back[e] = true
+					case 0:
+						dfs(e.to)
+					}
+				}
+				color[u] = 2
+			}
+			for _, en := range entries {
+				if color[en] == 0 {
+					dfs(en)
+				}
+			}
+		}
 		for _, e := range offending {
-			if e.class != "re-entry" {
+			if !back[e] {
 				continue
 			}
 			key := core.FnName(e.from) + " -> " + core.FnName(e.to)
@@ -784,6 +985,15 @@ func checkRecursion(c *core.Ctx, rule string, ra *recAnalysis) {
 		if len(gs) > 6 {
 			gs = gs[:6]
 		}
+		if os.Getenv("FV_DEBUG_REC") != "" {
+			for _, f := range comp {
+				for _, e := range ra.edges[f] {
+					if set[e.to] {
+						fmt.Fprintf(os.Stderr, "EDGE %s -> %s class=%s guard=%q\n", core.FnName(e.from), core.FnName(e.to), e.class, e.guard)
+					}
+				}
+			}
+		}
 		c.Discharge(rule, fmt.Sprintf("component(%s,…%d)", core.FnName(comp[0]), len(comp)), comp[0].Pos(), fmt.Sprintf("%d descending edges, %d guarded edges %v", desc, guarded, gs))
 	}
 }
@@ -816,6 +1026,146 @@ func testAndInsertSet(h *ssa.Function) string {
 	for n := range looked {
 		if inserted[n] {
 			return n
+		}
+	}
+	return ""
+}
+
+// constantSelectorGuard (G3): a self call that passes a constant string for a parameter the function switches on, where
+// the arm selected by that constant contains no self call: the alias resolves in one step.
+func constantSelectorGuard(e *recEdge) string {
+	if e.from != e.to || e.site == nil {
+		return ""
+	}
+	fn := e.to
+	args := e.site.Common().Args
+	for i, a := range args {
+		k, ok := a.(*ssa.Const)
+		if !ok || k.Value == nil || k.Value.Kind() != constant.String || i >= len(fn.Params) {
+			continue
+		}
+		p := fn.Params[i]
+		if p.Referrers() == nil {
+			continue
+		}
+		armFound := false
+		selfInArm := false
+		// the switched value: the parameter itself or strings.ToLower(parameter)
+		type sw struct {
+			v     ssa.Value
+			lower bool
+		}
+		sws := []sw{{p, false}}
+		for _, r := range *p.Referrers() {
+			if call, ok := r.(*ssa.Call); ok {
+				if cal := call.Common().StaticCallee(); cal != nil && cal.Pkg != nil && cal.Pkg.Pkg.Path() == "strings" && cal.Name() == "ToLower" {
+					sws = append(sws, sw{call, true})
+				}
+			}
+		}
+		var cmps []*ssa.BinOp
+		for _, w := range sws {
+			if w.v.Referrers() == nil {
+				continue
+			}
+			for _, r := range *w.v.Referrers() {
+				bo, ok := r.(*ssa.BinOp)
+				if !ok || bo.Op != token.EQL {
+					continue
+				}
+				other := bo.Y
+				if bo.Y == w.v {
+					other = bo.X
+				}
+				ko, ok := other.(*ssa.Const)
+				if !ok || ko.Value == nil || ko.Value.Kind() != constant.String {
+					continue
+				}
+				want := constant.StringVal(k.Value)
+				if w.lower {
+					want = strings.ToLower(want)
+				}
+				if constant.StringVal(ko.Value) == want {
+					cmps = append(cmps, bo)
+				}
+			}
+		}
+		for _, bo := range cmps {
+			if bo.Referrers() == nil {
+				continue
+			}
+			for _, r2 := range *bo.Referrers() {
+				iff, ok := r2.(*ssa.If)
+				if !ok {
+					continue
+				}
+				armFound = true
+				for _, blk := range fn.Blocks {
+					if !core.EdgeDominates(iff.Block(), 0, blk) {
+						continue
+					}
+					for _, in := range blk.Instrs {
+						if cal := core.StaticCallee(in); cal == fn {
+							selfInArm = true
+						}
+					}
+				}
+			}
+		}
+		if armFound && !selfInArm {
+			return "G3: alias with the constant selector " + k.Value.ExactString() + " whose arm does not recurse"
+		}
+	}
+	return ""
+}
+
+// ascendingParamGuard (G4): a self call that passes p+k (k>0) for an integer parameter p, dominated by the continuing
+// edge of a comparison of p (or p+k) with a bound, whose other edge leaves.
+func ascendingParamGuard(e *recEdge) string {
+	if e.from != e.to || e.site == nil {
+		return ""
+	}
+	fn := e.to
+	b := e.site.Block()
+	for i, a := range e.site.Common().Args {
+		step, ok := a.(*ssa.BinOp)
+		if !ok || step.Op != token.ADD || i >= len(fn.Params) || step.X != ssa.Value(fn.Params[i]) {
+			continue
+		}
+		if k, ok := core.ConstIntValue(step.Y); !ok || k <= 0 {
+			continue
+		}
+		for _, blk := range fn.Blocks {
+			iff, ok := blk.Instrs[len(blk.Instrs)-1].(*ssa.If)
+			if !ok {
+				continue
+			}
+			bo, ok := iff.Cond.(*ssa.BinOp)
+			if !ok {
+				continue
+			}
+			switch bo.Op {
+			case token.LSS, token.LEQ, token.GTR, token.GEQ:
+			default:
+				continue
+			}
+			involves := false
+			for x := range core.BackSlice(bo) {
+				if x == ssa.Value(fn.Params[i]) {
+					involves = true
+				}
+			}
+			if !involves {
+				continue
+			}
+			for idx := 0; idx < 2; idx++ {
+				if core.EdgeDominates(blk, idx, b) {
+					other := blk.Succs[1-idx]
+					if returnsErrorSoon(other) || !core.Reaches(other, b) {
+						return "G4: integer parameter " + fn.Params[i].Name() + " ascends by a constant under a bound test at " + bo.Op.String()
+					}
+				}
+			}
 		}
 	}
 	return ""
